@@ -8,6 +8,7 @@ package olric
 //@   props C16
 //@   flag termination
 //@   flag skip nil
+//@   flag wired 3
 //@   requires #args: len(cmd.Args) >= 1
 //@   loop 0 invariant #bounded: partID <= db.config.PartitionCount
 //@   loop 0 decreases db.config.PartitionCount - partID
